@@ -153,22 +153,34 @@ func (n *Native) ReplayKernel(job *Job, entries []string, v *Violation) (ReplayR
 	mf.Write(b)
 	mf.Close()
 	defer os.Remove(mf.Name())
-	ctx, cancel := context.WithTimeout(context.Background(), 20*time.Second)
-	defer cancel()
-	cmd := exec.CommandContext(ctx, bin, "-test.run", "^TestVerifReplay$", "-test.timeout", "3s", "-test.v")
-	cmd.Dir = n.CfgDir
-	cmd.Env = append(os.Environ(), "VERIF_MODEL="+mf.Name(), "VERIF_ENTRY="+job.Entry, fmt.Sprintf("VERIF_N=%d", job.N),
-		"VERIF_SOURCE="+job.Source, "VERIF_FILE="+job.File)
-	out, _ := cmd.CombinedOutput()
-	s := string(out)
-	res := ReplayResult{Observed: tail(s, 1500), Cmd: fmt.Sprintf("VERIF_MODEL=<model.json> VERIF_ENTRY=%s VERIF_N=%d %s -test.run TestVerifReplay", job.Entry, job.N, filepath.Base(bin))}
-	switch {
-	case strings.HasPrefix(v.Kind, "panic"):
-		res.Reproduced = strings.Contains(s, "VERIF-PANIC") || strings.Contains(s, "panic:") && !strings.Contains(s, "test timed out") || strings.Contains(s, "fatal error:")
-	case v.Kind == "budget":
-		res.Reproduced = strings.Contains(s, "test timed out") || ctx.Err() != nil
-	default:
-		res.Reproduced = strings.Contains(s, "VERIF-ASSERT-FAILED "+v.ID)
+	// A counterexample that depends on a schedule variable (Go map iteration order, "ord_*")
+	// cannot be forced natively: the run is repeated - each process gets fresh map
+	// randomisation - until the assertion fails once.
+	tries := 1
+	for k := range v.Model {
+		if strings.HasPrefix(k, "ord_") {
+			tries = 80
+		}
+	}
+	var res ReplayResult
+	for i := 0; i < tries && !res.Reproduced; i++ {
+		ctx, cancel := context.WithTimeout(context.Background(), 20*time.Second)
+		cmd := exec.CommandContext(ctx, bin, "-test.run", "^TestVerifReplay$", "-test.timeout", "3s", "-test.v")
+		cmd.Dir = n.CfgDir
+		cmd.Env = append(os.Environ(), "VERIF_MODEL="+mf.Name(), "VERIF_ENTRY="+job.Entry, fmt.Sprintf("VERIF_N=%d", job.N),
+			"VERIF_SOURCE="+job.Source, "VERIF_FILE="+job.File)
+		out, _ := cmd.CombinedOutput()
+		s := string(out)
+		res = ReplayResult{Observed: tail(s, 1500), Cmd: fmt.Sprintf("VERIF_MODEL=<model.json> VERIF_ENTRY=%s VERIF_N=%d %s -test.run TestVerifReplay (x%d: schedule-dependent)", job.Entry, job.N, filepath.Base(bin), tries)}
+		switch {
+		case strings.HasPrefix(v.Kind, "panic"):
+			res.Reproduced = strings.Contains(s, "VERIF-PANIC") || strings.Contains(s, "panic:") && !strings.Contains(s, "test timed out") || strings.Contains(s, "fatal error:")
+		case v.Kind == "budget":
+			res.Reproduced = strings.Contains(s, "test timed out") || ctx.Err() != nil
+		default:
+			res.Reproduced = strings.Contains(s, "VERIF-ASSERT-FAILED "+v.ID)
+		}
+		cancel()
 	}
 	return res, nil
 }
